@@ -898,6 +898,18 @@ def real_run(ctx, sets, bufsize, kill_at=None, root=None, snapshot=True, R="", f
     return rec, err
 
 
+def known_calls(ctx):
+    return getattr(ctx, "_c17_known_calls", 0)
+
+
+def ofail(ctx, key, *a, **kw):
+    """ctx.oracle_fail, counting the failures that match a known finding (runs that hit one are not sent to the
+    kernel: their WF obligation is known to be false)"""
+    if ctx.known(key) is not None:
+        ctx._c17_known_calls = known_calls(ctx) + 1
+    return ctx.oracle_fail(key, *a, **kw)
+
+
 def check_images(ctx, drv, ops_prefix, sets_json, bufsize, scratch, cap, label, big=False, R="", extra=None):
     """(c): crash images of the model after this prefix, materialised and read by the real store"""
     if len(ctx.oracle_failures) - getattr(ctx, "_c17_base", 0) >= 6 or len(ctx.oracle_failures) >= 50:
@@ -995,22 +1007,22 @@ def check_images(ctx, drv, ops_prefix, sets_json, bufsize, scratch, cap, label, 
                 want = canon(deserialize_obj(bytes.fromhex(done[k])))
                 wants = _short(want) if isinstance(want, str) else want
                 if kind == "undef":
-                    ctx.oracle_fail("kvs:crash:completed-key-missing" + cls_of(k), dict(case, key=k), wants, ":undefined",
+                    ofail(ctx, "kvs:crash:completed-key-missing" + cls_of(k), dict(case, key=k), wants, ":undefined",
                                     "a set that had returned is lost by a crash (its directory entry was never synced)")
                 elif raw in HISTORY.get(k, [])[:-1] and raw != done[k]:
-                    ctx.oracle_fail("kvs:crash:completed-key-reads-old-value" + cls_of(k), dict(case, key=k), wants, _short(f"{kind}:{val}"),
+                    ofail(ctx, "kvs:crash:completed-key-reads-old-value" + cls_of(k), dict(case, key=k), wants, _short(f"{kind}:{val}"),
                                     "a set that had returned is undone by a crash: the store reads the PREVIOUS value "
                                     "(something the set relied on — a rename, or bytes left by a killed writer — "
                                     "was never synced)")
                 elif kind == "raises" or val != want:
-                    ctx.oracle_fail("kvs:crash:completed-key-corrupt" + cls_of(k), dict(case, key=k), wants,
+                    ofail(ctx, "kvs:crash:completed-key-corrupt" + cls_of(k), dict(case, key=k), wants,
                                     f"{_short(f'{kind}:{val}')} raw={raw[:80]} ({len(raw) // 2} bytes)",
                                     "a completed key reads back wrong on a crash image (its data was not synced, or "
                                     "the set in progress wrote to this key's file)"
                                     + (f"; set in progress: {cur!r}" if cur else ""))
             else:
                 if kind != "undef":
-                    ctx.oracle_fail("kvs:crash:other-key-fails" + cls_of(k), dict(case, key=k), ":undefined", f"{kind}:{val}",
+                    ofail(ctx, "kvs:crash:other-key-fails" + cls_of(k), dict(case, key=k), ":undefined", f"{kind}:{val}",
                                     "a key that was never set must read :undefined on every crash image")
     ctx.bump(f"prefix-ends-in:{ops_prefix[-1].split(':')[0] if ops_prefix else 'empty'}")
     return len(seen)
@@ -1091,7 +1103,7 @@ def run_sequence(ctx, drv, sets, bufsize, sk, flag, cap, label="seq", R=""):
     os.makedirs(root)
     sets_json = [[k, v] for k, v in sets]
     ctx._c17_base = len(ctx.oracle_failures)
-    known0 = len(ctx.known_hits)
+    known0 = known_calls(ctx)
     big = any(len(serialize_obj(expand(v))) > 3000 for _, v in sets if v != GET)
     try:
         rec, err = real_run(ctx, sets, bufsize, root=root, R=R)
@@ -1114,7 +1126,7 @@ def run_sequence(ctx, drv, sets, bufsize, sk, flag, cap, label="seq", R=""):
                 ctx.mismatch("Klong.C17.WF (compiled model) of the recorded trace of a large-value sequence", case0,
                              "WF", "not WF")
         return dict(ops=ops, sets=[(full(R, k), v) for k, v in sets if v != GET], buf=eff_buf, wf=wf, big=big,
-                    sk=sk_for(sk, R), known=len(ctx.known_hits) > known0)
+                    sk=sk_for(sk, R), known=known_calls(ctx) > known0)
     finally:
         shutil.rmtree(top, ignore_errors=True)
 
@@ -1153,7 +1165,7 @@ def kill_history(ctx, drv, sets1, phase2, bufsize, sk, flag, cap, boundaries=Non
             _, status = os.waitpid(pid, 0)
             extra = dict(kind="kill-history", sets1=[[k, v] for k, v in sets1], phase2=[[k, v] for k, v in phase2],
                          killed_before=_short(ops1[b], 120), boundary=b, **{"class": "after-kill"})
-            known0 = len(ctx.known_hits)
+            known0 = known_calls(ctx)
             if os.waitstatus_to_exitcode(status) != 17:
                 ctx.mismatch("process-kill child did not reach the boundary", extra, 17, os.waitstatus_to_exitcode(status))
                 continue
@@ -1169,7 +1181,7 @@ def kill_history(ctx, drv, sets1, phase2, bufsize, sk, flag, cap, boundaries=Non
                          eff_buf, cap, "kill-history", top, R=R, extra=extra, images_from=b + 1)
             ctx.bump("kill-histories")
             ctx.bump("kill-histories-wf" if wf else "kill-histories-not-wf")
-            runs.append(dict(ops=ops, sets=None, buf=eff_buf, wf=wf, big=False, known=len(ctx.known_hits) > known0))
+            runs.append(dict(ops=ops, sets=None, buf=eff_buf, wf=wf, big=False, known=known_calls(ctx) > known0))
             shutil.rmtree(base, ignore_errors=True)
         return runs
     finally:
@@ -1208,7 +1220,7 @@ def fault_history(ctx, drv, sets0, target, follow, bufsize, sk, flag, cap, R="",
                 if only is not None and (b, mode) != tuple(only):
                     continue
                 ctx._c17_base = len(ctx.oracle_failures)
-                known0 = len(ctx.known_hits)
+                known0 = known_calls(ctx)
                 base = os.path.join(top, f"f{b}{mode[0]}")
                 os.makedirs(base)
                 retry = [target] if mode == "same-store" else [(REOPEN, None), target]
@@ -1228,7 +1240,7 @@ def fault_history(ctx, drv, sets0, target, follow, bufsize, sk, flag, cap, R="",
                 ctx.bump("fault-histories")
                 ctx.bump(f"fault-retry-{mode}:" + ("returned" if getattr(rec, "raised", 0) < 2 else "raised-again"))
                 runs.append(dict(ops=rec.ops, sets=None, buf=eff_buf, wf=wf, big=False,
-                                 known=len(ctx.known_hits) > known0))
+                                 known=known_calls(ctx) > known0))
                 shutil.rmtree(base, ignore_errors=True)
         return runs
     finally:
